@@ -75,7 +75,7 @@ class Ctx:
         e["TMPDIR"] = self.path("tmp")
         if env:
             e.update(env)
-        p = subprocess.run([exe] + args + ["-stats", st], capture_output=True, text=True, timeout=timeout, env=e)
+        p = subprocess.run([exe] + args + ["-stats", st], capture_output=True, text=True, timeout=timeout, env=e, cwd=self.scratch)
         if (p.returncode != 0 or not os.path.exists(st)) and allow_crash and ("fatal error:" in p.stderr or "panic:" in p.stderr):
             # the process under test died (Go runtime fatal error / unrecovered panic): that is an observation
             i = p.stderr.find("fatal error:")
@@ -321,6 +321,10 @@ def run_check(prop, fn):
         rc = 2
     except subprocess.TimeoutExpired as e:
         print("INCONCLUSIVE property=%s: timeout %s" % (prop, e))
+        rc = 2
+    except Exception as e:
+        import traceback
+        print("INCONCLUSIVE property=%s: internal error of the check: %s" % (prop, traceback.format_exc()[-3000:]))
         rc = 2
     finally:
         ctx.cleanup()
